@@ -77,6 +77,9 @@ def run(tier, seed):
                         if n:
                             data[rng.randrange(n)] = rng.randrange(1, 256)
                         data = bytes(data)
+                    elif rng.random() < 0.25:
+                        # bytes that read as text: hex digits, blanks, colons, line ends (a binary log is a binary log whatever its bytes spell)
+                        data = bytes(rng.choice(b'0123456789ABCDEFabcdef  :\n<>') for _ in range(n))
                     else:
                         data = bytes(rng.choice([0, 0, rng.randrange(256)]) for _ in range(n))
                     reqs.append('hlog %d %s' % (tid, tb(data)))
